@@ -124,6 +124,40 @@ def frame_obligations(name, entries, prune=None, memo_ok=MEMO_OK, functions=None
                       '%d write sites in %d reachable functions: none touches a shared object, module global, class '
                       'attribute or mutable default (memo tables used: %d)' % (nwrites, len(reach), len(memo_hit)),
                       functions=fl))
+    # a mutable object in a class attribute that instance methods mutate in place is shared by all instances
+    bad_cls = []
+    for cname, (mod, node, bases) in prog.classes.items():
+        for st_ in node.body:
+            tgt = val = None
+            if isinstance(st_, ast.Assign) and len(st_.targets) == 1 and isinstance(st_.targets[0], ast.Name):
+                tgt, val = st_.targets[0].id, st_.value
+            elif isinstance(st_, ast.AnnAssign) and isinstance(st_.target, ast.Name) and st_.value is not None:
+                tgt, val = st_.target.id, st_.value
+            if tgt is None or not (isinstance(val, (ast.List, ast.Dict, ast.Set)) or
+                                   (isinstance(val, ast.Call) and getattr(val.func, 'id', '') in ('list', 'dict', 'set'))):
+                continue
+            owners = [c for c in prog.classes if cname in prog.mro(c)]
+            inits = set()
+            mutators = []
+            for c in owners:
+                for q, f in prog.fns.items():
+                    if f.cls != c:
+                        continue
+                    for loc, ln, txt in f.writes:
+                        if loc == 'field:%s.%s' % (c, tgt):
+                            is_rebind = ('self.%s =' % tgt) in txt.replace('  ', ' ') or ('self.%s:' % tgt) in txt
+                            if q.endswith('.__init__') and is_rebind:
+                                inits.add(c)
+                            elif not is_rebind:
+                                mutators.append((q, txt))
+            for q, txt in mutators:
+                c = prog.fns[q].cls
+                if not any(k in inits for k in prog.mro(c)) and q in reach:
+                    bad_cls.append((cname + '.' + tgt, q, txt))
+    obs.append(Ob('eff:%s:no-shared-class-level-container' % name, 'D', 'effects', DISCHARGED if not bad_cls else REFUTED, 0,
+                  'no reachable method mutates in place a container that only exists as a class attribute' if not bad_cls else
+                  'class-level container mutated through instances: %r' % bad_cls[:3],
+                  dict(sites=[list(b) for b in bad_cls[:6]]) if bad_cls else None, functions=fl, replayed=False if bad_cls else None))
     # no reads of time / randomness / environment
     env = sorted((q, c) for q in reach for c in prog.fns[q].calls
                  if c.startswith(('ext:time.', 'ext:random.', 'ext:os.getenv', 'ext:os.environ', 'ext:uuid.')))
